@@ -138,6 +138,11 @@ func runC19(c *sim.Ctx, t *testing.T) {
 	for i := range steps {
 		st := &xStep{timeout: []time.Duration{time.Second, 300 * time.Millisecond, 0}[c.Intn(3, "timeout")]}
 		nout := 1 + c.Intn(3, "nout")
+		onlyForbidden := i == 0 && c.Chance(1, 10, "onlyforbidden")
+		if onlyForbidden {
+			// a step that verifies that something does not happen: no expected output at all
+			nout = 0
+		}
 		for j := 0; j < nout; j++ {
 			o := xOutput{key: fmt.Sprintf("s%do%d", i, j), withVar: c.Bool("withvar")}
 			if !o.withVar && c.Chance(1, 5, "propvar") {
@@ -177,13 +182,34 @@ func runC19(c *sim.Ctx, t *testing.T) {
 			if !strings.HasPrefix(text, "{") || !c.Chance(1, 3, why) {
 				return text
 			}
-			n := []int{4090, 5000, 70000}[c.Intn(3, "padsize")]
+			n := []int{4090, 5000, 70000, 300}[c.Intn(4, "padsize")]
+			if c.Bool("padcodes") {
+				// structure all along the line: a list of numbers
+				return `{"codes":[` + strings.TrimSuffix(strings.Repeat("1000,", n/5), ",") + `],` + text[1:]
+			}
 			return `{"pad":"` + strings.Repeat("x", n) + `",` + text[1:]
 		}
 		for _, o := range st.outputs {
 			if !o.inverted {
 				st.lines = append(st.lines, xLine{text: line(o, 2), delay: time.Duration(1+c.Intn(5, "delay")) * 10 * time.Millisecond, why: "expected " + o.key})
 			}
+		}
+		if onlyForbidden {
+			// the first message the child writes decides: the forbidden one, or an unrelated one
+			st.outputs = []xOutput{{key: fmt.Sprintf("s%d", i), inverted: true}}
+			st.lines = nil
+			if c.Bool("ofnoise") {
+				st.lines = append(st.lines, xLine{text: "not json at all", delay: 5 * time.Millisecond, why: "noise"})
+			}
+			if c.Bool("ofhit") {
+				st.lines = append(st.lines, xLine{text: fmt.Sprintf(`{"bad":"s%d"}`, i), delay: 5 * time.Millisecond, why: "forbidden"})
+				st.fault = "only-forbidden-hit"
+			} else {
+				st.lines = append(st.lines, xLine{text: `{"x": 1}`, delay: 5 * time.Millisecond, why: "unrelated"})
+				st.fault = "only-forbidden-quiet"
+			}
+			steps[i] = st
+			continue
 		}
 		// faults
 		st.fault = []string{"none", "none", "dup", "drop", "dup+drop", "reorder", "late", "noise", "forbidden", "guard-reject", "reject-all", "forbidden-in-required", "exit-early", "forbidden-seen-before", "forbidden-guarded", "forbidden-on-guard-error"}[c.Intn(16, "fault")]
@@ -350,6 +376,9 @@ func runC19(c *sim.Ctx, t *testing.T) {
 	sess := &Session{DefaultTimeout: xDefaultTimeout, Interpreters: core.InterpretersMap{"ecmascript": ecmascript.NewInterpreter()}}
 	// as in session files written in YAML: every pattern is given as JSON text
 	sess.ParsePatterns = c.Chance(1, 4, "parsepatterns")
+	// what the tool prints about the child's output is nobody's business but the reader's
+	sess.ShowStdout = c.Bool("showstdout")
+	sess.ShowStderr = c.Bool("showstderr")
 	for i, st := range steps {
 		iop := IO{Inputs: []interface{}{fmt.Sprintf(`{"go":%d}`, i)}, Timeout: st.timeout}
 		switch c.Intn(4, "waits") {
@@ -604,6 +633,23 @@ func xRunOnce(c *sim.Ctx, t *testing.T, sess *Session, steps []*xStep, runNo int
 					faultOf = "cancel"
 				}
 			}
+		}
+		if i == 0 && len(st.outputs) == 1 && st.outputs[0].inverted && strings.HasPrefix(st.fault, "only-forbidden") {
+			// nothing is expected: the first message of the stream is what the step looks at
+			for _, ln := range stream {
+				var m map[string]interface{}
+				if ln.step != 0 || json.Unmarshal([]byte(ln.text), &m) != nil {
+					continue
+				}
+				r, started := readAt[0]
+				inTime := started && ln.at < r+to && !(cancelledAt >= 0 && ln.at >= cancelledAt)
+				if inTime && xMatchesPattern(st.outputs[0], m) && why == "" {
+					why = "step 0 expects nothing and forbids bad=" + st.outputs[0].key + ", and the first message the child wrote matches that"
+					faultOf = st.fault
+				}
+				break
+			}
+			continue
 		}
 		for _, o := range st.outputs {
 			if !o.inverted {
